@@ -7,10 +7,11 @@
     Q = [successor zk p m] = fixupEPSquare (makeMove p m);  [withClock ui 0] = the undo information
     with the half-move clock field set to 0, the only form RevMoveGen reports. *)
 From Coq Require Import ZArith NArith List Bool.
-From Texel Require Import Chess.Types Chess.Position Chess.PositionSpec Chess.PositionProofs Chess.PositionProofs2
+From Texel Require Import Chess.Types Chess.Position Chess.PositionSpec Chess.PositionProofs Chess.PositionProofs2 Chess.PositionProofs3
+  Chess.MoveGenProofs
   Chess.BitBoard Chess.MoveGen Chess.MoveGenWF Chess.Fen Chess.Spec
   RevGen.RevGen RevGen.RevFacts RevGen.RevAbs RevGen.RevRestore RevGen.RevValid RevGen.RevCand RevGen.RevRaw
-  RevGen.RevLegal RevGen.RevTheorems RevGen.RevSpec RevGen.RevPremise RevGen.RevPawn RevGen.RevCastle RevGen.RevComplete.
+  RevGen.RevLegal RevGen.RevTheorems RevGen.RevSpec RevGen.RevPremise RevGen.RevPawn RevGen.RevCastle RevGen.RevComplete RevGen.RevCons.
 Import ListNotations.
 Local Open Scope N_scope.
 
@@ -186,6 +187,42 @@ Theorem C15_consistent_partial : forall zk pos incl um,
   epSquare (kiRemade zk (fst (canTakeKing zk prev)) (um_move um)) = epSquare pos.
 Proof. exact consistent_partial. Qed.
 Print Assumptions C15_consistent_partial.
+
+(** proved for every reported un-move of a piece other than a pawn that is neither an un-promotion nor an
+    un-castling (queen, rook, bishop, knight, king; captured piece, castle-mask and e.p. alternatives all
+    included): the restored position satisfies the representation invariant, and making the move again and
+    fixing up the e.p. square gives the board, side, castle mask and e.p. square of Q *)
+Theorem C15_consistent_pieces : forall zk q, Consistent zk q -> WF q -> forall incl um,
+  In um (genMoves zk q incl) ->
+  mpromote (um_move um) = EMPTY ->
+  isPawnPiece (nthP (squares q) (mto (um_move um))) = false ->
+  (isKingPiece (nthP (squares q) (mto (um_move um))) = true ->
+   mto (um_move um) <> mfrom (um_move um) + 2 /\ mto (um_move um) + 2 <> mfrom (um_move um)) ->
+  let prev := unMakeMove zk q (um_move um) (um_ui um) in
+  Consistent zk prev /\ abs (successor zk prev (um_move um)) = abs q.
+Proof. exact consistent_pieces. Qed.
+Print Assumptions C15_consistent_pieces.
+
+(** ... and for knight and king un-moves the move is legal in the restored position by the FIDE rules:
+    with C15_consistent_pieces this is C15_consistent_statement for these two classes *)
+Theorem C15_consistent_knight_king : forall zk q, Consistent zk q -> WF q -> forall incl um,
+  In um (genMoves zk q incl) ->
+  mpromote (um_move um) = EMPTY ->
+  isPawnPiece (nthP (squares q) (mto (um_move um))) = false ->
+  (isKingPiece (nthP (squares q) (mto (um_move um))) = true ->
+   mto (um_move um) <> mfrom (um_move um) + 2 /\ mto (um_move um) + 2 <> mfrom (um_move um)) ->
+  (nthP (squares q) (mto (um_move um)) = myPiece (negb (whiteMove q)) WKNIGHT \/
+   nthP (squares q) (mto (um_move um)) = myPiece (negb (whiteMove q)) WKING) ->
+  legal_spec (abs (unMakeMove zk q (um_move um) (um_ui um))) (um_move um).
+Proof. exact legal_knight_king. Qed.
+Print Assumptions C15_consistent_knight_king.
+
+(** the shape of the raw reverse moves of genMovesNoUndoInfo that are not pawn un-moves or un-promotions *)
+Theorem C15_raw_piece_shape : forall q, BoardOK q ->
+  (exists s, s < 64 /\ getPiece q s = mk_piece (negb (whiteMove q)) King) ->
+  forall m, In m (genMovesNoUndoInfo q) -> mpromote m = EMPTY -> isPawnPiece (getPiece q (mto m)) = false -> RawPiece q m.
+Proof. exact raw_piece_shape. Qed.
+Print Assumptions C15_raw_piece_shape.
 
 (** * NoDup: statement only (duplicates are looked for in every list of the correspondence run) *)
 Definition C15_nodup_statement : Prop :=
